@@ -59,10 +59,13 @@ pub fn write_app(net: &Value, opts: &Value, tag: &str) -> AppFiles {
     }
     toml.push_str(&format!("[graph]\nedge_list_input_file = \"{}\"\nvertex_list_input_file = \"{}\"\nverbose = false\n", p("edges.csv"), p("vertices.csv")));
     toml.push_str(&opts["algorithm_toml"].as_str().unwrap_or("[algorithm]\ntype = \"a*\"\n").to_string());
-    toml.push_str(&format!(
-        "[traversal]\ntype = \"speed_table\"\nspeed_table_input_file = \"{}\"\nspeed_unit = \"meters_per_second\"\ndistance_unit = \"meters\"\ntime_unit = \"seconds\"\n",
-        p("speeds.txt")
-    ));
+    match opts["traversal_toml"].as_str() {
+        Some(t) => toml.push_str(&t.replace("$SPEEDS", &p("speeds.txt"))),
+        None => toml.push_str(&format!(
+            "[traversal]\ntype = \"speed_table\"\nspeed_table_input_file = \"{}\"\nspeed_unit = \"meters_per_second\"\ndistance_unit = \"meters\"\ntime_unit = \"seconds\"\n",
+            p("speeds.txt")
+        )),
+    }
     toml.push_str("[access]\ntype = \"no_access_model\"\n");
     toml.push_str(&opts["cost_toml"].as_str().unwrap_or(
         "[cost]\ncost_aggregation = \"sum\"\n[cost.weights]\ndistance = 0\ntime = 1\n[cost.vehicle_rates.time]\ntype = \"raw\"\n[cost.vehicle_rates.distance]\ntype = \"raw\"\n",
@@ -83,3 +86,30 @@ pub fn write_app(net: &Value, opts: &Value, tag: &str) -> AppFiles {
 pub fn build_app(files: &AppFiles) -> Result<CompassApp, String> {
     CompassApp::try_from(files.config.as_path()).map_err(|e| e.to_string())
 }
+
+/// an energy traversal model over the speed table: one bundled ICE model with a real-world adjustment and a
+/// (lossless: the table holds a handful of distinct speeds, no grades) prediction cache shared by all queries
+pub const ENERGY_TRAVERSAL_TOML: &str = r#"[traversal]
+type = "energy_model"
+grade_table_grade_unit = "decimal"
+time_unit = "seconds"
+distance_unit = "meters"
+[traversal.time_model]
+type = "speed_table"
+speed_table_input_file = "$SPEEDS"
+speed_unit = "meters_per_second"
+distance_unit = "meters"
+time_unit = "seconds"
+[[traversal.vehicles]]
+type = "ice"
+name = "camry"
+model_input_file = "/repo/rust/routee-compass-powertrain/src/routee/test/Toyota_Camry.bin"
+model_type = "smartcore"
+speed_unit = "miles_per_hour"
+grade_unit = "decimal"
+energy_rate_unit = "gallons_gasoline_per_mile"
+ideal_energy_rate = 0.02
+real_world_energy_adjustment = 1.25
+float_cache_policy = { cache_size = 1000, key_precisions = [2, 4] }
+"#;
+pub const ENERGY_COST_TOML: &str = "[cost]\ncost_aggregation = \"sum\"\n[cost.weights]\ndistance = 0\ntime = 0\nenergy_liquid = 1000\n[cost.vehicle_rates.time]\ntype = \"raw\"\n[cost.vehicle_rates.distance]\ntype = \"raw\"\n[cost.vehicle_rates.energy_liquid]\ntype = \"raw\"\n";
